@@ -24,9 +24,12 @@ const (
 	kEscText = "fits-escaped-text"       // character-string / octet text fields: the escape sequences are counted as written
 	kAPL     = "fits-apl-trailing-zeros" // APL: (prefix+7)/8 address octets counted, trailing zero octets are not written
 	kGateway = "fits-gateway-host"       // IPSECKEY/AMTRELAY gateway name: len(text)+1 ("." counts 2, escapes as written)
+	// round 9: the length walk decides "can this label still be pointed at" (offset < 16384) with the
+	// offset in the escaped TEXT of the name, the packer with the offset in the message
+	kEsc16k = "fits-escaped-name-16k"
 )
 
-var overIDs = []string{kNsec3, kBase64, kBitmap, kEscText, kAPL, kGateway}
+var overIDs = []string{kNsec3, kBase64, kBitmap, kEscText, kAPL, kGateway, kEsc16k}
 
 func needsTxtEscape(b []byte) bool {
 	for _, c := range b {
@@ -127,7 +130,10 @@ func overClasses(m wm.Msg) []string {
 // fitsAll decides in the generator whether the "fits => keeps all" clause is asserted for a reply
 // outside the plain sub-domain: yes unless it contains a record of a known class whose probe still
 // reproduces (each such reply is counted with pbt.Excluded).
-func fitsAll(m wm.Msg) bool {
+func fitsAll(m wm.Msg) bool { return fitsAllSpelled(m, 0) }
+
+// fitsAllSpelled: the same for a reply whose names are written under the spelling seed spell.
+func fitsAllSpelled(m wm.Msg, spell uint64) bool {
 	ok := true
 	for _, c := range overClasses(m) {
 		if pbt.Known(c) {
@@ -135,7 +141,45 @@ func fitsAll(m wm.Msg) bool {
 			ok = false
 		}
 	}
+	if escapedNameNear16k(m, spell) && pbt.Known(kEsc16k) {
+		pbt.Excluded(kEsc16k)
+		ok = false
+	}
 	return ok
+}
+
+// escapedNameNear16k: the class of kEsc16k, decided on the model - a name whose text carries an
+// escape can begin within 1020 octets (255 octets written as \DDD) below message offset 16384 only if
+// the reply is longer than 16384-1020 octets; under a spelling seed any name may carry escapes.
+func escapedNameNear16k(m wm.Msg, spell uint64) bool {
+	w, err := wm.Encode(m)
+	if err != nil || len(w) <= 16384-1020 {
+		return false
+	}
+	if spell != 0 {
+		return true
+	}
+	for _, q := range m.Q {
+		if nameNeedsEscape(q.Name) {
+			return true
+		}
+	}
+	for _, r := range m.AllRecs() {
+		if nameNeedsEscape(r.Name) {
+			return true
+		}
+		for _, f := range r.Fields {
+			if len(f.N) > 0 && nameNeedsEscape(f.N) {
+				return true
+			}
+			for _, n := range f.NL {
+				if nameNeedsEscape(n) {
+					return true
+				}
+			}
+		}
+	}
+	return false
 }
 
 // Types whose length estimate is exact as long as the content is escape-free, outside the common
@@ -298,6 +342,17 @@ var probeDefs = []struct {
 	{kGateway, 40, 0, func(i int) wm.Rec {
 		return wm.Rec{Name: exampleOrg(two(i)), Type: wm.TAMTRELAY, Class: 1, TTL: 3600, Fields: []wm.Field{
 			{K: wm.U8, U: 10}, {K: wm.U8, U: 3}, {K: wm.GW, U: 3, N: wm.Name{}}}}
+	}},
+	// fill. TXT <16292 octets>; then at offset 16340 the owner \000 x20 .other.test. (its label "other"
+	// sits at message offset 16361, at offset 81 of the text), then 8 x other.test. A
+	{kEsc16k, 10, 0, func(i int) wm.Rec {
+		switch i {
+		case 0:
+			return gen.PlainFiller(16340 - 12 - 20 - 16)
+		case 1:
+			return wm.Rec{Name: wm.Name{make([]byte, 20), []byte("other"), []byte("test")}, Type: wm.TA, Class: 1, TTL: 60, Fields: []wm.Field{{K: wm.IPv4, B: []byte{192, 0, 2, 1}}}}
+		}
+		return wm.Rec{Name: wm.MustName("other.test."), Type: wm.TA, Class: 1, TTL: 60, Fields: []wm.Field{{K: wm.IPv4, B: []byte{192, 0, 2, byte(i)}}}}
 	}},
 }
 
